@@ -81,6 +81,7 @@ func genArgs(r *hx.Rand, hostile bool) []string {
 }
 
 type gen struct {
+	cmdOK  bool // this script may spawn commands (kept rare: a process spawn is expensive)
 	r      *hx.Rand
 	tag    int
 	loopID int
@@ -94,6 +95,9 @@ func (g *gen) src() Src {
 	case 4, 5, 6:
 		return Src{K: 'f', Name: g.r.Pick([]string{"f1", "f2", "f3", "f3", "nx", "-"})}
 	default:
+		if !g.cmdOK {
+			return Src{K: 'f', Name: g.r.Pick([]string{"f1", "f2", "f3"})}
+		}
 		return Src{K: 'c', Name: cmdPool[g.r.Intn(len(cmdPool))].Name}
 	}
 }
@@ -181,7 +185,10 @@ func (g *gen) stmt(depth int, c ctx) Stmt {
 			return Stmt{Op: "G", Src: g.src(), Tgt: g.tgt(c.fn)}
 		case 8:
 			if !c.inLoop && c.fn < 0 {
-				return Stmt{Op: "CL", S1: g.r.Pick([]string{"f1", "f2", "f3", cmdPool[0].Name, cmdPool[3].Name, "-"})}
+				if g.cmdOK && g.r.Bool() {
+					return Stmt{Op: "CL", S1: g.r.Pick([]string{cmdPool[0].Name, cmdPool[3].Name})}
+				}
+				return Stmt{Op: "CL", S1: g.r.Pick([]string{"f1", "f2", "f3", "-"})}
 			}
 		case 9, 10:
 			if depth > 0 {
@@ -200,7 +207,8 @@ func (g *gen) stmt(depth int, c ctx) Stmt {
 		case 12:
 			if depth > 0 {
 				g.loopID++
-				return Stmt{Op: "R", N: g.r.Intn(4), ID: g.loopID, A: g.block(depth-1, c, 2)}
+				id, n := g.loopID, g.r.Intn(4)
+				return Stmt{Op: "R", N: n, ID: id, A: g.block(depth-1, c, 2)}
 			}
 		case 13, 14:
 			if c.calls && c.fn+1 < g.nfuncs {
@@ -301,7 +309,7 @@ func (g *gen) genFuncs(depth int) []Func {
 }
 
 func genRandom(r *hx.Rand, family string) *Case {
-	g := &gen{r: r}
+	g := &gen{r: r, cmdOK: r.Intn(25) == 0}
 	hostile := family == "hostile"
 	c := baseCase(g, family, hostile)
 	c.P.Funcs = g.genFuncs(2)
@@ -445,7 +453,17 @@ func genSystematic() []*Case {
 		for _, t := range tgts {
 			gs := []Stmt{tr(tag, "g0", "g1", "a[0]"), {Op: "G", Src: s, Tgt: t}, tr(tag+1, "g0", "g1", "a[0]"), {Op: "G", Src: s, Tgt: t}, tr(tag+2, "g0", "g1", "a[0]")}
 			tag += 3
-			for _, args := range [][]string{{"f1", "f2"}, nil, {"f3", "g0=7", "f1"}} {
+			for ai, args := range [][]string{{"f1", "f2"}, nil, {"f3", "g0=7", "f1"}} {
+				if s.K == 'c' {
+					// commands: one operand list, two positions (each spawn costs a process)
+					if ai == 0 {
+						mk("sys-getline", args, Prog{Begin: gs, End: []Stmt{tr(9)}})
+						if t.K != 'd' || t.N == 2 {
+							mk("sys-getline", args, Prog{Rules: []Rule{{Kind: "pe", P1: Pattern{C: &Cond{Op: "fnr", K: 2}, Inline: true}, Body: gs}, {Kind: "pn", Body: []Stmt{tr(2)}}}, End: []Stmt{tr(9)}})
+						}
+					}
+					continue
+				}
 				mk("sys-getline", args, Prog{Begin: gs, End: []Stmt{tr(9)}})
 				mk("sys-getline", args, Prog{Rules: []Rule{{Kind: "pe", P1: Pattern{C: &Cond{Op: "fnr", K: 2}, Inline: true}, Body: gs}, {Kind: "pn", Body: []Stmt{tr(2)}}}, End: []Stmt{tr(9)}})
 				mk("sys-getline", args, Prog{Rules: []Rule{{Kind: "pn", Body: []Stmt{tr(2)}}}, End: gs})
